@@ -1,5 +1,5 @@
 /* c06_quality: encode -> decode quality / alignment executor (C06).
- * case line: <idx> <rate> <ch> <mode> <N> <fmax> <sig>
+ * case line: <idx> <rate> <ch> <mode> <N> <fmax> <sig> [<sched>]
  *   mode : q<quality>   vorbis_encode_init_vbr(quality)
  *          a<quality>   ABR: vorbis_encode_init(&vi,ch,rate,-1,nominal,-1) where nominal is the bitrate_nominal that
  *                       vorbis_encode_init_vbr(quality) reports for the same channels/rate (so ABR members carry the same
@@ -16,6 +16,15 @@
  *          l:<hz>:<f>                   LFE-content member (6 channels): channel 5 = 0.5 sin at <hz> Hz (f=0 abrupt, f=1 faded), channels 0-4 two-tone chords
  *          g:<hz>:<dB>:<loud>           level-gap member (>=2 channels): channel 1 a quiet two-tone at <dB> dBFS, the others loud tones (loud=1) or silent (loud=0)
  *          c:<seed>:<cnt>:<w>           click train: cnt clicks of width w (1 = single sample, else raised cosine) at LCG positions
+ *   sched: SUBMISSION SCHEDULE of the encode driver (optional; absent = x1024, the fixed 1024-sample submissions): comma separated piece
+ *          sizes handed to vorbis_analysis_buffer / vorbis_analysis_wrote one after the other (after each submission vorbis_analysis_blockout
+ *          is drained); tokens  <n> literal | B<+-d> = blocksizes[1]+d | D<+-d> = 2*blocksizes[1]+d (the buffer then holds
+ *          centerW+2*blocksizes[1]+d) | E<+-d> = centerW+2*blocksizes[1]+d with the initial centerW = blocksizes[1]/2 | H<+-d> = N/2+d |
+ *          R = all that is left in one piece | x<n> = pieces of n until done | G = pieces 1,2,4,8,.. until done.  The last token must be R, x<n> or G;
+ *          a piece is cut to what is left.  With a schedule the result carries in addition
+ *            sch=<text> nsub=<submissions> first=<first piece> maxp=<largest piece> pre=<pcm_current when the start-of-stream pre-extrapolation
+ *            ran>,<centerW then>,<blocksizes[1]> wl=<window length> ws=<input energy per window, windows separated by ',', channels by ';'>
+ *            we=<energy of (in-out) per window> wh=<64-bit hash of the decoded floats of all channels in that window, per window>
  *   F(k,c,M) = fmax*(0.05+0.95*(((k+3c) mod M)+c/8)/M)   -> all channels carry different frequencies
  *   Every channel has its own tone set / LCG seed / click positions / burst position.
  * The case generates the signal in double, rounds to float, encodes it with the REAL encoder in-process, pages the packets
@@ -201,7 +210,13 @@ static void xcorr(const double *x,const double *y,long N,long L,double *r,double
   __real_free(ix); __real_free(xv);
 }
 
-#define RESN 3000
+/* schedule members only: the input's own autocorrelation figures (ira, iw) are a pure function of (sig, rate, N, fmax of the channel, channel) -
+   the same input is encoded under many schedules / configurations - so they are kept in a small table instead of being recomputed */
+#define ACN 96
+static struct { char key[360]; double ira; long iw; } ac_tab[ACN]; static int ac_n=0,ac_next=0;
+#define RESN 24000
+#define WLEN 1024
+#define MAXPIECE 64
 #define FAIL(...) do{ if(!res[0])snprintf(res,RESN,__VA_ARGS__); }while(0)
 
 int main(int argc,char **argv){
@@ -210,10 +225,13 @@ int main(int argc,char **argv){
   if(!cf){ fprintf(stderr,"usage: c06_quality --cases <file>\n"); return 2; }
   signal(SIGVTALRM,on_alarm);
   while(fgets(line,sizeof(line),cf)){
-    long idx,rate,N; int ch; char mode[64],sig[256],fms[64]; double fmax,fmax_lfe=0; char res[RESN]; struct itimerval it;
+    long idx,rate,N; int ch,nf; char mode[64],sig[256],fms[64],sched[256]; double fmax,fmax_lfe=0; char res[RESN]; struct itimerval it;
+    long nsub=0,firstp=0,maxp=0,pre_cur=-1,pre_cw=-1;
     double *in[MAXCH]={0},*out[MAXCH]={0}; long dec=0,nlong=0,nshort=0,sal=0,bs0=0,bs1=0,nom=0; int cpl=0,fin=1;
     res[0]=0;
-    if(sscanf(line,"%ld %ld %d %63s %ld %63s %255s",&idx,&rate,&ch,mode,&N,fms,sig)!=7){ continue; }
+    sched[0]=0;
+    if((nf=sscanf(line,"%ld %ld %d %63s %ld %63s %255s %255s",&idx,&rate,&ch,mode,&N,fms,sig,sched))<7){ continue; }
+    if(nf<8)sched[0]=0;
     { char *e; fmax=strtod(fms,&e); if(*e==',')fmax_lfe=strtod(e+1,NULL); }
     g_cur=idx;
     memset(&it,0,sizeof(it)); it.it_value.tv_sec=120; setitimer(ITIMER_VIRTUAL,&it,NULL);
@@ -245,6 +263,7 @@ int main(int argc,char **argv){
       }
       if(!res[0]){
         long done=0,prevbs=0; int eos=0;
+        long piece[MAXPIECE]; int npiece=0,tail=0; long tailn=1024,grow=1; /* tail: 0 = x<tailn>, 1 = R, 2 = G */
         ogg_packet h1,h2,h3;
         {
           codec_setup_info *ci=(codec_setup_info*)vi.codec_setup; int m;
@@ -255,6 +274,25 @@ int main(int argc,char **argv){
           vdinit=1; vorbis_block_init(&vd,&vb);
           ogg_stream_init(&os,4711); ogg_stream_init(&ds,4711);
           bs0=vorbis_info_blocksize(&vi,0); bs1=vorbis_info_blocksize(&vi,1);
+          if(sched[0]){
+            /* resolve the schedule text against the block sizes of this set-up */
+            const char *p=sched; int okk=1,closed=0;
+            while(*p&&okk&&!closed){
+              char t=*p; long base=0,d=0; char *e;
+              if(t=='R'){ tail=1; closed=1; p++; }
+              else if(t=='G'){ tail=2; closed=1; p++; }
+              else if(t=='x'){ tailn=strtol(p+1,&e,10); if(tailn<1)okk=0; tail=0; closed=1; p=e; }
+              else{
+                if(t=='B'){ base=bs1; p++; } else if(t=='D'){ base=2*bs1; p++; } else if(t=='E'){ base=bs1/2+2*bs1; p++; } else if(t=='H'){ base=N/2; p++; }
+                else if(t<'0'||t>'9')okk=0;
+                if(okk){ d=strtol(p,&e,10); if(e==p&&base==0)okk=0; p=e; }
+                if(okk&&(base+d<1||npiece>=MAXPIECE))okk=0;
+                if(okk)piece[npiece++]=base+d;
+                if(*p==',')p++; else if(*p)okk=0;
+              }
+            }
+            if(!okk||!closed||*p)FAIL("bad:sched_syntax");
+          }
           vorbis_analysis_headerout(&vd,&vc,&h1,&h2,&h3);
           ogg_stream_packetin(&os,&h1); ogg_stream_packetin(&os,&h2); ogg_stream_packetin(&os,&h3);
           for(;;){
@@ -274,10 +312,14 @@ int main(int argc,char **argv){
           while(!eos&&!res[0]){
             if(done>=N)vorbis_analysis_wrote(&vd,0);
             else{
-              long c=N-done>1024?1024:N-done,j; int k;
-              float **b=vorbis_analysis_buffer(&vd,c);
+              long c,j; int k,pre0=vd.preextrapolate; float **b;
+              if(nsub<npiece)c=piece[nsub]; else if(tail==1)c=N-done; else if(tail==2){ c=grow; grow*=2; } else c=tailn;
+              if(c>N-done)c=N-done;
+              b=vorbis_analysis_buffer(&vd,c);
               for(k=0;k<ch;k++)for(j=0;j<c;j++)b[k][j]=(float)in[k][done+j];
               if(vorbis_analysis_wrote(&vd,c)){ FAIL("bad:enc_wrote"); break; }
+              if(!nsub)firstp=c; if(c>maxp)maxp=c; nsub++;
+              if(!pre0&&vd.preextrapolate){ pre_cur=vd.pcm_current; pre_cw=vd.centerW; }  /* the submission that ran _preextrapolate_helper */
               done+=c;
             }
             while(!res[0]&&(ret=vorbis_analysis_blockout(&vd,&vb))==1){
@@ -357,6 +399,14 @@ int main(int argc,char **argv){
         for(c=0;c<ch;c++){
           long l,bl=0; double bv=-1e300,sv=-1e300;
           /* uniqueness of the INPUT's own autocorrelation peak (a property of the signal alone): lags >= 0, mirrored */
+          char ackey[360]; int hit=-1,a;
+          ackey[0]=0;
+          if(sched[0]){
+            snprintf(ackey,sizeof(ackey),"%s|%ld|%ld|%.17g|%d",sig,rate,N,(c==5&&fmax_lfe>0)?fmax_lfe:fmax,c);
+            for(a=0;a<ac_n;a++)if(!strcmp(ac_tab[a].key,ackey)){ hit=a; break; }
+          }
+          if(hit>=0){ ira[c]=ac_tab[hit].ira; iw[c]=ac_tab[hit].iw; }
+          else{
           xcorr(in[c],in[c],N,L,r,yp,L);
           for(l=0;l<L;l++)r[l]=r[2*L-l];
           for(l=0;l<2*L+1;l++){
@@ -366,6 +416,8 @@ int main(int argc,char **argv){
           ira[c]=(r[L]>0)?((sv>0)?(r[L]/sv>99?99:r[L]/sv):99.0):0.0;
           /* flat top of the input autocorrelation: lags whose value stays within 2% of the peak cannot be told from lag 0 */
           iw[c]=0; for(l=1;l<=L;l++){ if(r[L+l]>=0.98*r[L])iw[c]=l; else break; }
+          if(ackey[0]){ a=ac_next; ac_next=(ac_next+1)%ACN; if(ac_n<ACN)ac_n++; snprintf(ac_tab[a].key,sizeof(ac_tab[a].key),"%s",ackey); ac_tab[a].ira=ira[c]; ac_tab[a].iw=iw[c]; }
+          }
           sv=-1e300;
           xcorr(in[c],out[c],N,L,r,yp,0);
           for(l=0;l<2*L+1;l++)if(r[l]>bv){ bv=r[l]; bl=l; }
@@ -390,6 +442,17 @@ int main(int argc,char **argv){
       ADD(" pkc="); for(c=0;c<ch;c++)ADD("%s%.4f@%ld",c?",":"",pkc[c],pkpos[c]);
       ADD(" pic="); for(c=0;c<ch;c++)ADD("%s%.4f",c?",":"",pic[c]);
       ADD(" aper=%d lg=%ld sh=%ld sal=%ld cpl=%d bs=%ld/%ld nom=%ld",aper,nlong,nshort,sal,cpl,bs0,bs1,nom);
+      if(sched[0]){
+        /* windowed view: input energy, error energy and a hash of the decoded samples for every complete WLEN window of the common range */
+        long nw=M/WLEN,w;
+        ADD(" sch=%s nsub=%ld first=%ld maxp=%ld pre=%ld,%ld,%ld wl=%d ws=",sched,nsub,firstp,maxp,pre_cur,pre_cw,bs1,WLEN);
+        for(c=0;c<ch;c++){ if(c)ADD(";"); for(w=0;w<nw;w++){ double ss=0; for(n=w*WLEN;n<(w+1)*WLEN;n++)ss+=in[c][n]*in[c][n]; ADD("%s%.5e",w?",":"",ss); } }
+        ADD(" we=");
+        for(c=0;c<ch;c++){ if(c)ADD(";"); for(w=0;w<nw;w++){ double se=0; for(n=w*WLEN;n<(w+1)*WLEN;n++){ double d=in[c][n]-out[c][n]; se+=d*d; } ADD("%s%.5e",w?",":"",se); } }
+        ADD(" wh=");
+        for(w=0;w<nw;w++){ h128 h; h_init(&h); for(c=0;c<ch;c++)h_bytes(&h,out[c]+w*WLEN,sizeof(double)*WLEN); ADD("%s%016llx",w?",":"",(unsigned long long)(h.a^h.b)); }
+        if(left<64){ res[0]=0; FAIL("bad:result_too_long"); }
+      }
     }
     memset(&it,0,sizeof(it)); setitimer(ITIMER_VIRTUAL,&it,NULL);
     printf("%ld %s\n",idx,res); fflush(stdout);
